@@ -259,6 +259,8 @@ def main(argv=None):
         for r in bounded:
             if r.get("error"):
                 crashes.append((r["function"], "bounded stand-in failed to run: " + r["error"]))
+            elif not r.get("evaluations") and not r.get("failures"):
+                crashes.append((r["function"], "bounded stand-in evaluated nothing (generator failing or every draw outside the precondition)"))
             for fl in r.get("failures", []):
                 hid = hashlib.sha256(json.dumps(fl, sort_keys=True, default=str).encode()).hexdigest()[:10]
                 path = os.path.join(VERIF, "work", "replay", prop, f"bounded-{hid}.json")
